@@ -4,6 +4,7 @@ import (
 	"bytes"
 	"fmt"
 	"runtime/debug"
+	"strconv"
 	"testing"
 
 	lz4 "github.com/pierrec/lz4/v4"
@@ -91,13 +92,28 @@ func TestC11Huge(t *testing.T) {
 	rec.SetRule(c11Rule)
 	datas := []gen.Data{
 		{Segs: []gen.Seg{{K: "rand", N: 9 << 20, S: 41}}},
-		{Segs: []gen.Seg{{K: "rand", N: 9 << 20, S: 42}, {K: "copy", N: 300, P: 5000, S: 1}, {K: "rand", N: 40, S: 3}}},
+		{Segs: []gen.Seg{{K: "rand", N: 9 << 20, S: 42}, {K: "run", N: 65536, P: 0}, {K: "rand", N: 40, S: 3}}}, // (a match the sparse probes after a long literal run still find)
 		{Segs: []gen.Seg{{K: "rand", N: 100, S: 45}, {K: "run", N: 9 << 20, P: 0}, {K: "rand", N: 30, S: 46}}}, // one match of 9 MiB
 		{Segs: []gen.Seg{{K: "period", N: 9<<20 + 3, S: 47, P: 7}, {K: "rand", N: 30, S: 48}}},                 // ... at offset 7
 		{Segs: []gen.Seg{{K: "text", N: 5 << 20, S: 43, P: 4}, {K: "rand", N: 5 << 20, S: 44}}},
 	}
 	if !thorough() {
 		datas = datas[:4]
+	}
+	// a literal run of 600 KiB, then a long match: every destination length from 2000 below the compressed size to 8 above it
+	{
+		d := gen.Data{Segs: []gen.Seg{{K: "rand", N: 600 << 10, S: 49}, {K: "run", N: 65536, P: 0}, {K: "rand", N: 32, S: 50}}}
+		src := d.Build()
+		if shard == 0 {
+			var bc blockComps
+			full := make([]byte, lz4.CompressBlockBound(len(src)))
+			cn, _ := bc.compress("fast-obj", 0, src, full)
+			for l := cn - 2000; l <= cn+8; l++ {
+				cc := compCase{Data: d, Comp: "fast-obj", DstLen: l, Spare: 64}
+				judge(t, "C11", "C11/dstcontract", cc, safelyC11(cc, src, rec))
+			}
+			rec.Class("huge-source/dense-band-below-the-compressed-size")
+		}
 	}
 	i := 0
 	for _, d := range datas {
@@ -111,7 +127,13 @@ func TestC11Huge(t *testing.T) {
 			full := make([]byte, bound)
 			var bc blockComps
 			cn, _ := bc.compress(comp, 1, src, full)
-			for _, l := range []int{0, len(src) / 2, len(src) - 1, len(src), cn - 1, cn, bound - 1, bound, bound + 1} {
+			lens := []int{0, len(src) / 2, len(src) - 1, len(src), cn - 1, cn, bound - 1, bound, bound + 1}
+			// a band below the compressed size (an estimate of the space a long literal run needs that is a little short
+			// shows only there)
+			for d := 2; d < 3000; d += 37 {
+				lens = append(lens, cn-d)
+			}
+			for _, l := range lens {
 				if l < 0 {
 					continue
 				}
@@ -121,6 +143,49 @@ func TestC11Huge(t *testing.T) {
 				rec.Class("huge-source")
 			}
 		}
+	}
+}
+
+// TestC11Above4GiB (thorough, 64-bit only): a source of 4 GiB + 128 KiB (zeros, never touched except for three short markers: a
+// 100-byte group at 1000, its first four bytes again exactly 2^32 bytes later followed by something else, and the whole group
+// 300 bytes after that) into a destination of the bound: positions that are congruent modulo 2^32 must not be taken for close.
+// The block is checked sequence by sequence against the source.
+func TestC11Above4GiB(t *testing.T) {
+	rec := stat.For("C11")
+	rec.SetRule(c11Rule)
+	if !thorough() || strconv.IntSize < 64 || shard != nshards-1 {
+		return
+	}
+	shift := uint(32)
+	gib4 := int(int64(1) << shift)
+	src := make([]byte, gib4+128<<10)
+	marker := make([]byte, 100)
+	gen.Fill(marker, 51)
+	for i := range marker {
+		marker[i] |= 1
+	}
+	copy(src[1000:], marker)
+	copy(src[gib4+1000:], marker[:4])
+	src[gib4+1004] = ^marker[4]
+	copy(src[gib4+1300:], marker)
+	dst := make([]byte, lz4.CompressBlockBound(len(src)))
+	for _, comp := range []string{"hc-obj", "fast-obj"} {
+		var bc blockComps
+		rec.Eval()
+		var n int
+		var err error
+		f := safelyF(func() *stat.Failure { n, err = bc.compress(comp, uint32(lz4.Level1), src, dst); return nil })
+		if f == nil && (err != nil || n <= 0 || n > len(dst)) {
+			f = stat.Failf("C11/"+comp[:2]+"/fails-with-bound-sized-dst", "%s, source of 2^32+%d bytes, len(dst)=bound: n=%d err=%v", comp, len(src)-gib4, n, err)
+		}
+		if f == nil {
+			if why := ref.WalkBlockAgainst(dst[:n], src); why != "" {
+				f = stat.Failf("C11/"+comp[:2]+"/positive-count-but-not-a-complete-block", "%s, source of 2^32+%d bytes, n=%d: %s", comp, len(src)-gib4, n, why)
+			}
+		}
+		judge(t, "C11", "C11/above4GiB", comp, f)
+		rec.Class("source-above-4GiB")
+		rec.NonTrivial(stat.FP("above4g", comp))
 	}
 }
 
